@@ -8,14 +8,14 @@ DEFAULT_THOROUGH = dict(checks=20000, shards=16, budget_s=600, timeout_s=1800)
 
 
 def entry(pid, engine, test=None, level="exploration", technique="", quick=None, thorough=None,
-          race=False, min_nt=2, design_ref="", level_text="", level_note="", env=None, title=""):
+          race=False, min_nt=2, design_ref="", level_text="", level_note="", env=None, title="", crashcap=False):
     q = dict(DEFAULT_QUICK)
     q.update(quick or {})
     t = dict(DEFAULT_THOROUGH)
     t.update(thorough or {})
     return dict(id=pid, engine=engine, test=test or ("Test" + pid), level=level, technique=technique,
                 quick=q, thorough=t, race=race, min_nt=min_nt, design_ref=design_ref or ("DESIGN.md §4 " + pid),
-                level_text=level_text, level_note=level_note, env=env or {}, title=title)
+                level_text=level_text, level_note=level_note, env=env or {}, title=title, crashcap=crashcap)
 
 
 
